@@ -132,6 +132,11 @@ theorem eq_asg : ∀ (n : Nat) (a b : Ty), a.w + b.w ≤ n → Ty.WF cfg a → T
     | strSz r => cases b <;> simp at h; subst h; exact same rfl
     | strVal s => cases b <;> simp at h; subst h; exact same rfl
     | regexp s => cases b <;> simp at h; subst h; exact same rfl
+    | runtime rt nm pt =>
+      cases b <;> simp only [] at h <;> (first | contradiction | skip)
+      rename_i rt' nm' pt'
+      have := rtAcc_of_eq h
+      exact ⟨viaR cfg sfh rfl (by rw [recv_runtime_eq]; exact this.1), viaR cfg sfh rfl (by rw [recv_runtime_eq]; exact this.2)⟩
     | coll r => cases b <;> simp at h; subst h; exact same rfl
     | object p => cases b <;> simp at h; subst h; exact same rfl
     | enum vs ci =>
